@@ -204,3 +204,23 @@ def draw(rng, nonfinite=False, moves=True, weights=None):
         valid = valid and ok
     mode = rng.choice(["towards", "away", "towards-no-error", "away-no-error"])
     return Op("probe", (mode,), kw, valid=valid)
+
+
+def random_bounds(rng, g, p=0.6):
+    """Configure user bounds that cut through the value grids above, so that calls are rejected
+    by a bound in mid-history (and words next to the offending one are valid). Returns the dict."""
+    b = {}
+    if rng.random() < p:
+        b["tool-power"] = rng.choice([(0, 100), (1, 1000), (0, 255), (0.5, 12000)])
+    if rng.random() < p:
+        b["feed-rate"] = rng.choice([(0, 1500), (1, 300.5), (60, 6000)])
+    if rng.random() < p / 2:
+        b["tool-number"] = (1, rng.choice([12, 50]))
+    if rng.random() < p / 2:
+        b["axes"] = ((-80, -80, -80), (80, 80, 80))
+    for name in ("bed-temperature", "hotend-temperature", "chamber-temperature"):
+        if rng.random() < p / 2:
+            b[name] = (rng.choice([0, 25]), rng.choice([110, 210]))
+    for name, (lo, hi) in b.items():
+        g.set_bounds(name, lo, hi)
+    return b
